@@ -1,5 +1,8 @@
 import Percival.Proofs.CpuPaths
 import Percival.Proofs.CpuAesni
+import Percival.Spec.AesFailMon
+import Percival.Proofs.AesStep
+import Percival.Proofs.CpuStep
 /-!
 # C03 — every CPU-accelerated code path computes the same function as the portable one
 
@@ -348,5 +351,70 @@ theorem aesni_rejects_other_key_lengths (key : List UInt8) (inp : R) (h : key.le
 example : aesniEncrypt [1, 2, 3] ⟨W4.zero, W4.zero, W4.zero, W4.zero⟩ = none := by decide
 
 end aesni
+
+/-! ## the dispatch self-test under an allocation failure (`pmodel aesfailmon`) -/
+
+/-- **What the `aes-selftest-allocfail` monitor expects is the Spec.**  For a 16-byte block and a 128/256-bit first
+    key: the harness' stream input exists (48 bytes, `blk[j mod 16] + j`); the expected block ciphertexts are FIPS-197
+    under the two keys; the expected stream output is SP 800-38A CTR (nonce 7) of that input — which is also what the
+    statement-level model of `crypto_aesctr_buf` (C02) computes under the expanded first key on *either* routing
+    (portable or AES-NI bulk loop), so a self-test that silently selects the other path cannot change it; and the
+    monitor accepts exactly these answers (and `fail`). -/
+theorem aesfail_expect_is_spec (k1 k2 blk : List UInt8) (h1 : k1.length = 16 ∨ k1.length = 32)
+    (hb : blk.length = 16) (hw : Bool) :
+    ∃ sin e rks, AesFailMon.pattern blk = some sin ∧ sin.length = 48 ∧
+      (∀ j, j < 48 → sin[j]? = blk[j % 16]?.map (· + UInt8.ofNat j)) ∧
+      AesFailMon.expect k1 blk k2 = some e ∧
+      e.c1 = Aes.encryptBlock k1 blk ∧ e.c2 = Aes.encryptBlock k2 blk ∧
+      e.c3 = Ctr.stream (Aes.encryptBlock k1) 7 sin ∧
+      Model.AesStep.expandKey k1 = some rks ∧
+      Model.AesCtr.ctrBuf Model.AesStep.enc hw Model.AesStep.raw rks 7 sin = some e.c3 ∧
+      AesFailMon.accepts e (.ct (some e.c1) (some e.c2) (some e.c3)) = true ∧ AesFailMon.accepts e .fail = true := by
+  obtain ⟨a0, a1, a2, a3, a4, a5, a6, a7, a8, a9, a10, a11, a12, a13, a14, a15, rfl⟩ := Proofs.Aes.len16 blk hb
+  obtain ⟨hwf, hx⟩ := Proofs.AesStep.expandKey_eq k1 h1
+  refine ⟨_, _, _, rfl, rfl, ?_, rfl, rfl, rfl, rfl, hx, ?_, ?_, rfl⟩
+  · intro j hj
+    iterate 48 (rcases j with _ | j; · rfl)
+    omega
+  · rw [Proofs.AesStep.ctrBuf_spec hw _ 7 _ (by simp)]; rfl
+  · simp [AesFailMon.accepts]
+
+example : AesFailMon.pattern (List.replicate 16 0xf0) = some ((List.range 48).map fun j => 0xf0 + UInt8.ofNat j) := by
+  decide
+
+/-! ## The function the executable runs (`pmodel cpu` = `render ∘ Model.CpuStep.stepOp cfg ∘ parse`) -/
+section exec
+open Percival.Model.CpuStep Percival.Proofs.CpuStep
+
+/-- **A `crc` line, for every build.**  Whatever variant the build selects (`cfg.crc`), whatever the buffer address
+    and the partition into calls: the L1 part is `Spec.Crc32c.crc32c` of the concatenated chunks; the L2 part has one
+    state per `CRC32C_Update` call, none of them a model failure (`oob`), and the state after the last call,
+    little-endian (`CRC32C_Final`), *is* the L1 part — the routing table `callsOf` and the instruction-level models it
+    routes to cannot disagree with the Spec. -/
+theorem exec_crc_line (cfg : Cfg) (align : Nat) (cs : List (List UInt8)) :
+    ∃ states, stepOp cfg (.crc align cs) = .crc (Spec.Crc32c.crc32c cs.flatten) states ∧
+      states.length = cs.length ∧ (∀ o ∈ states, o ≠ none) ∧
+      (cs ≠ [] → ∃ s, states.getLast? = some (some s) ∧ crcFinal s = Spec.Crc32c.crc32c cs.flatten) := by
+  obtain ⟨h1, h2, h3⟩ := crcStates_spec (callsOf cfg.crc align cs) Gen.CpuPaths.crcInitState
+  refine ⟨_, rfl, by rw [h1, callsOf_length], h2, fun hne => ?_⟩
+  have hne' : callsOf cfg.crc align cs ≠ [] := by
+    intro h; have := callsOf_length cfg.crc cs align; rw [h] at this
+    exact hne (List.eq_nil_of_length_eq_zero this.symm)
+  exact ⟨_, h3 hne', by rw [callsOf_data]; exact fold_eq_spec _⟩
+
+/-- two calls (3 bytes: portable branch; 9 bytes at address 6: the SSE4.2 routine with 32-bit loads) -/
+example : (match stepOp ⟨.software, some .x32⟩ (.crc 3 [[104, 101, 108], [108, 111, 32, 119, 111, 114, 108, 100, 33]]) with
+    | .crc c st => (c, st)
+    | _ => ([], [])) = ([50, 8, 19, 122], [some 3185642536, some 2048067634]) := by decide +kernel
+
+/-- **An `xform` line.**  On the portable and on the SSE2 build the scratch array `W` shown as L2 is the FIPS 180-4
+    message schedule of the block (so the two builds print the same line). -/
+theorem exec_xform_schedule (blk : List UInt8) (h : blk.length = 64) :
+    scheduleOf .sse2 blk = some (Spec.Sha256.schedule blk) ∧ scheduleOf .software blk = some (Spec.Sha256.schedule blk) :=
+  ⟨sse2_schedule_eq_spec blk h, rfl⟩
+
+example : (List.replicate 64 (0 : UInt8)).length = 64 := by decide
+
+end exec
 
 end Percival.C03
